@@ -63,17 +63,29 @@ def case_strategy(draw):
         mod.extra_text = "\n".join(frags)
         text = _rename(mod.render(), "Q%dx" % fi)
         names = re.findall(r"(?m)^(Q%dx\d+) ::=" % fi, text)
+        head = ""
+        bymod = {}
+        # a SEQUENCE with explicitly tagged components for COMPONENTS OF across modules (the tagging defaults differ);
+        # from the second module on it includes the previous module's one, and a second type includes that in turn
+        if nfiles > 1:
+            head += "CoBase%d ::= SEQUENCE { a%d [%d] INTEGER, b%d [%d] BOOLEAN OPTIONAL%s }\n" % (
+                fi, fi, 2 * fi, fi, 2 * fi + 1, ", COMPONENTS OF CoBase%d" % (fi - 1) if fi else "")
+            if fi:
+                bymod.setdefault("M%d" % (fi - 1), []).append("CoBase%d" % (fi - 1))
+                head += "CoUse%d ::= SEQUENCE { COMPONENTS OF CoBase%d, zz%d NULL }\n" % (fi, fi - 1, fi)
+                classes.append("components-of.cross-module")
         if fi > 0 and exported:
             # import one or two types of earlier modules and use them
             k = draw(st.integers(1, min(2, len(exported))))
             imp = exported[:k]
-            bymod = {}
             for m_, n_ in imp:
                 bymod.setdefault(m_, []).append(n_)
-            clause = "IMPORTS " + " ".join("%s FROM %s" % (", ".join(ns), m_) for m_, ns in sorted(bymod.items())) + ";\n"
-            use = "Use%d ::= SEQUENCE { %s }\n" % (fi, ", ".join("m%d %s OPTIONAL" % (j, n_) for j, (m_, n_) in enumerate(imp)))
-            text = text.replace("::= BEGIN\n", "::= BEGIN\n" + clause + use, 1)
+            head += "Use%d ::= SEQUENCE { %s }\n" % (fi, ", ".join("m%d %s OPTIONAL" % (j, n_) for j, (m_, n_) in enumerate(imp)))
             classes.append("imports")
+        if bymod:
+            head = "IMPORTS " + " ".join("%s FROM %s" % (", ".join(ns), m_) for m_, ns in sorted(bymod.items())) + ";\n" + head
+        if head:
+            text = text.replace("::= BEGIN\n", "::= BEGIN\n" + head, 1)
         for n_ in names[:2]:
             exported.insert(0, (mod.name, n_))
         files.append(["m%d.asn1" % fi, text])
